@@ -122,7 +122,10 @@ class Event:
 
     @defused.setter
     def defused(self, value: bool) -> None:
-        self._defused = True
+        if value:
+            self._defused = True
+        elif hasattr(self, '_defused'):
+            del self._defused
 
     @property
     def value(self) -> Optional[Any]:
